@@ -139,7 +139,7 @@ def verdict_and_evidence(prop, tier, seed, report, reason, t0, stages, replay_mo
         replay_paths.append(path)
         log(f"VIOLATION property={prop} replay={path}")
         log(f"  signature: {v['signature']}")
-        log(f"  observed:  {v['what'][:600]}")
+        log(f"  observed:  {v['what'][:300]}")
     wall = time.time() - t0
     if not replay_mode:
         cov = {
